@@ -132,4 +132,38 @@ theorem modifyCells_ok {s s' : State} {l : Nat} {f : Int → Int} {cond : Option
   simp only [hl, if_true, Prod.mk.injEq] at h
   exact ⟨h.2.symm, h.1.symm⟩
 
+theorem modifyCell_ok {s s' : State} {l : Nat} {c : Coord} {f : Option (Int → Int)}
+    (h : modifyCell s l c f = (s', .ok)) :
+    ∃ g, f = some g ∧ l < s.nLayers ∧ inBounds (s.layers l).dims c = true ∧
+    s' = { s with heap := upd s.heap (s.layers l).data
+                            ((s.heap (s.layers l).data).set c (g (s.heap (s.layers l).data c))) } := by
+  unfold modifyCell at h
+  split at h
+  · simp at h
+  · split at h
+    · simp at h
+    · next L hL =>
+      obtain ⟨hlt, rfl⟩ := layer?_some hL
+      split at h
+      · simp at h
+      · next hb =>
+        split at h
+        · simp at h
+        · next g =>
+          simp only [Prod.mk.injEq, and_true] at h
+          exact ⟨g, rfl, hlt, by simpa using hb, h.symm⟩
+
+theorem hset_ok {s s' : State} {hd : Nat} {c : Coord} {v : Int} (h : hset s hd c v = (s', .ok)) :
+    ∃ a d, s.handles.lookup hd = some (a, d) ∧ inBounds d c = true ∧
+    s' = { s with heap := upd s.heap a ((s.heap a).set c v) } := by
+  unfold hset at h
+  split at h
+  · simp at h
+  · next a d hlk =>
+    split at h
+    · simp at h
+    · next hb =>
+      simp only [Prod.mk.injEq, and_true] at h
+      exact ⟨a, d, hlk, by simpa using hb, h.symm⟩
+
 end Mesa.Layers
